@@ -206,7 +206,19 @@ def gen_model(rng, tier, **force):
     ts_species = []
     used_ids = set()
     seen_eq = set()
-    user_id_mode = force.get('ids') or rng.choice(['auto', 'auto', 'user', 'mixed'])
+    user_id_mode = force.get('ids') or rng.choice(['auto', 'auto', 'user', 'mixed', 'blocks'])
+    # 'blocks': user ids in short consecutive runs separated by gaps, two headers, handed out in shuffled
+    # order -> a phase / BEP lists several "a to b" ranges and single ids (long range lists)
+    block_ids = []
+    if user_id_mode == 'blocks':
+        for hdr in ('u', 'rx'):
+            k, mine = rng.randint(0, 3), []
+            while len(mine) < (n_rxn + 3) // 2:
+                run = rng.choice([1, 2, 2, 3, 4])
+                mine.extend('%s_%04d' % (hdr, k + j) for j in range(run))
+                k += run + rng.randint(1, 3)
+            block_ids.extend(mine[:(n_rxn + 3) // 2])
+        rng.shuffle(block_ids)
     site_first_p = force.get('site_first_p', 0.08)
     for i in range(n_rxn):
         s = rng.choice(surf)
@@ -225,7 +237,8 @@ def gen_model(rng, tier, **force):
             if rng.random() < site_first_p:
                 reac.reverse()
             rx.update(reactants=reac, products=prods,
-                      sticking_coeff=rng.choice([None, None, _r(rng, 0.01, 1.0, 3)]))
+                      sticking_coeff=rng.choice([None, None, _r(rng, 0.01, 1.0, 3), _r(rng, 0.01, 1.0, 3),
+                                                 0.0, 1.0, 1e-12]))
         else:
             pool = s['ads'] + [s['site']]
             reac_names = rng.sample(pool, rng.randint(1, min(2, len(pool))))
@@ -258,11 +271,18 @@ def gen_model(rng, tier, **force):
                 ts_species.pop()
             continue
         seen_eq.add(eqk)
-        rx['A'] = None if is_ads else rng.choice([None, None, float('%.4g' % (10 ** rng.uniform(8, 22)))])
-        rx['beta'] = rng.choice([None, None, 0, 1, 0.5, _r(rng, -1, 2, 2)])
-        rx['Ea'] = rng.choice([None, None, 0.0, _r(rng, 0.0, 60.0, 3)])
+        rx['A'] = None if is_ads else rng.choice([None, None, None, float('%.4g' % (10 ** rng.uniform(8, 22))),
+                                                  float('%.4g' % (10 ** rng.uniform(8, 22))), 0.0, 1e-30, 1e35])
+        rx['beta'] = rng.choice([None, None, 0, 1, 0.5, _r(rng, -1, 2, 2), -1, 0.0, -0.5])
+        # user-supplied activation energies at the sign / zero boundaries (kcal/mol), for adsorption
+        # (sticking probability falling with T) and surface steps alike
+        rx['Ea'] = rng.choice([None, None, None, 0.0, _r(rng, 0.0, 60.0, 3), _r(rng, 0.0, 60.0, 3),
+                               -0.65, _r(rng, -15.0, 0.0, 3), 1e-9, -1e-9])
         want_user = user_id_mode == 'user' or (user_id_mode == 'mixed' and rng.random() < 0.5)
-        if want_user:
+        if user_id_mode == 'blocks' and block_ids:
+            rx['id'] = block_ids.pop()
+            used_ids.add(rx['id'])
+        elif want_user:
             while True:
                 uid = '%s_%04d' % (rng.choice(['u', 'rx']), rng.randint(0, 60))
                 if uid not in used_ids:
@@ -286,7 +306,15 @@ def gen_model(rng, tier, **force):
         n_int = force.get('n_interactions')
         if n_int is None:
             n_int = rng.choice([0, 0, 1, 2, 4, 10])
-    int_names = force.get('int_names') or rng.choice(['auto', 'auto', 'user', 'mixed'])
+    int_names = force.get('int_names') or rng.choice(['auto', 'auto', 'user', 'mixed', 'blocks'])
+    int_block = []
+    k = 100
+    while len(int_block) < n_int:
+        run = rng.choice([1, 2, 2, 3])
+        int_block.extend('li_%04d' % (k + j) for j in range(run))
+        k += run + rng.randint(1, 3)
+    int_block = int_block[:n_int]
+    rng.shuffle(int_block)
     for i in range(n_int):
         s = rng.choice(surf)
         if not s['ads']:
@@ -296,7 +324,8 @@ def gen_model(rng, tier, **force):
         user = int_names == 'user' or (int_names == 'mixed' and rng.random() < 0.5)
         interactions.append({'name_i': rng.choice(s['ads']), 'name_j': rng.choice(s['ads']),
                              'intervals': iv, 'slopes': [_r(rng, -60, 20, 3) for _ in iv],
-                             'name': ('li_%04d' % (100 + i)) if user else None, 'phase': s['phase']})
+                             'name': (int_block[i] if int_names == 'blocks' else
+                                      ('li_%04d' % (100 + i)) if user else None), 'phase': s['phase']})
 
     if profile == 'plain' and interactions and units_as != 'none':
         units['quantity'] = 'mol'
@@ -308,7 +337,9 @@ def gen_model(rng, tier, **force):
             'beps': beps, 'reactions': reactions, 'interactions': interactions,
             'reactions_arg': 'list' if reactions else rng.choice(['list', 'none']),
             'interactions_arg': 'list' if interactions else rng.choice(['list', 'none']),
-            'first': rng.choice(['cti', 'yaml']),
+            'first': rng.choice(['cti', 'yaml']), 'ids_mode': user_id_mode,
+            'line_lens': [rng.choice([40, 50, 60, 72, 79, 80, 81, 100, 132])
+                          for _ in range(rng.choice([0, 1, 1, 2]))],
             'fresh_second': rng.random() < 0.3,
             'to_file': rng.random() < 0.25}
     if populate == 'incremental':
@@ -584,10 +615,35 @@ def gen_reactor(rng, tier, **force):
             opts[o] = {'t': t, 'v': rng.randint(1, 50)}
         elif fam == 'strlist':
             pool = ['r_0001', 'r_0002', 'u_0007'] if o == 'reactions_SA' else ['H2', 'N2(T)', 'NH3']
-            opts[o] = {'t': 'strlist', 'v': rng.sample(pool, rng.randint(1, 3))}
+            if rng.random() < 0.4:
+                # ids / names given as strings and as objects carrying them, in one list
+                kind = 'obj:reaction' if o == 'reactions_SA' else 'obj:species'
+                picks = rng.sample(pool, rng.randint(2, 3))
+                forms = [kind] + [rng.choice(['str', kind]) for _ in picks[1:]]
+                rng.shuffle(forms)
+                opts[o] = {'t': 'mixlist', 'v': [{'t': f, 'v': x} for f, x in zip(forms, picks)]}
+            else:
+                opts[o] = {'t': 'strlist', 'v': rng.sample(pool, rng.randint(1, 3))}
         elif fam == 'numlist':
             n = rng.randint(1, 3)
-            if unit is not None and (dom == 'str' or (dom == 'mixed' and rng.random() < 0.3)):
+            if force.get('mixlist', rng.random() < 0.4):
+                # element-wise mixed forms: Python and NumPy numbers and (for unit-bearing options)
+                # strings that carry their own unit, in one list
+                n = rng.randint(2, 4)
+                forms = list(NUM_TYPES) + (['str', 'str', 'str'] if unit is not None else [])
+                while True:
+                    ts = [rng.choice(forms) for _ in range(n)]
+                    if len(set(ts)) >= 2:
+                        break
+                els = []
+                for t in ts:
+                    if t == 'str':
+                        els.append({'t': 'str', 'v': '%s %s' % (_num_value(rng, 'float'),
+                                                                rng.choice(SI_STR_UNITS[o]))})
+                    else:
+                        els.append({'t': t, 'v': _num_value(rng, t)})
+                opts[o] = {'t': 'mixlist', 'v': els}
+            elif unit is not None and (dom == 'str' or (dom == 'mixed' and rng.random() < 0.3)):
                 u = rng.choice(SI_STR_UNITS[o])
                 opts[o] = {'t': 'strlist_units', 'v': ['%s %s' % (_num_value(rng, 'float'), u) for _ in range(n)]}
             else:
@@ -703,6 +759,18 @@ def organize_data(spec):
     return out
 
 
+def _sa_object(kind, ident):
+    """a real pMuTT object that carries the id / name (sensitivity-analysis lists accept objects)"""
+    import random
+    from pmutt.omkm.reaction import SurfaceReaction
+    rng = random.Random('C07-sa')
+    if kind == 'obj:species':
+        return build_species(gen_species_spec(rng, ident, 'Nasa', 'S', {'H': 1}, 1))
+    a = build_species(gen_species_spec(rng, 'A(S)', 'Nasa', 'S', {'H': 1}, 1))
+    b = build_species(gen_species_spec(rng, 'B(S)', 'Nasa', 'S', {'H': 1}, 1))
+    return SurfaceReaction(reactants=[a], reactants_stoich=[1], products=[b], products_stoich=[1], id=ident)
+
+
 def reactor_kwargs(spec):
     """Keyword arguments of write_yaml with values of the requested python / NumPy type."""
     import numpy as np
@@ -717,6 +785,9 @@ def reactor_kwargs(spec):
             kw[o] = list(v)
         elif t.startswith('list:'):
             kw[o] = [conv[t[5:]](x) for x in v]
+        elif t == 'mixlist':
+            kw[o] = [_sa_object(e['t'], e['v']) if e['t'].startswith('obj:') else conv[e['t']](e['v'])
+                     for e in v]
         else:
             raise ValueError(t)
     for k, v in spec.get('generic', {}).items():
